@@ -1,5 +1,5 @@
 """C18 — dropping a story releases its memory: the content tree has no strong back/cross edges."""
-from analysis.facts import last_seg, tyname
+from analysis.facts import last_seg, tyname, callee_short
 from analysis.typegraph import field_reach
 
 ALLOWED_CHILD_EDGES = {
@@ -32,6 +32,7 @@ def run(chk, prog):
                             'every push there is preceded by a clear, so repeated play / reset / load of one story instance '
                             'does not append definition clones to content nodes for ever (same clause as '
                             'C07.origins-recomputed-on-push).')
+    no_state_outside_the_story(chk, prog)
     impls = prog.impls_of_trait('bladeink::object::RTObject')
     if not chk.anchor('C18.strong-edge', 'impls of bladeink::object::RTObject', impls):
         return
@@ -121,6 +122,44 @@ def check_choice_exemption(chk, prog, key, loc):
                  'Choice holds a Thread (strong pointers into the tree); the exemption "Choice is never a content '
                  'node" no longer re-validates: Choice::new callers=%s, unexpected functions touching the field=%s'
                  % (roots, extra), loc)
+
+
+def no_state_outside_the_story(chk, prog):
+    RS = 'C18.nothing-outlives-the-story'
+    chk.rule(RS, 'Everything the runtime allocates while playing hangs off the Story value (so dropping or resetting the '
+             'story gives it back): no function of the runtime touches a thread-local, a static or a lazily initialised '
+             'global cell. Such a cell is a memo that is never emptied - it grows with every story created or reset on '
+             'the thread, and no Rc / Weak analysis of the content tree can see it.')
+    SHARED = ('LocalKey::with', 'LocalKey::try_with', 'LocalKey::with_borrow', 'LocalKey::with_borrow_mut', 'LocalKey::set',
+              'LocalKey::replace', 'LocalKey::take', 'OnceLock::get_or_init', 'LazyLock::force', 'Lazy::force',
+              'OnceLock::get', 'OnceLock::set', 'LazyCell::force')
+    ALLOWED = {}      # root function -> reason (none today)
+    n, bad = 0, []
+    for fn in sorted(prog.fns.values(), key=lambda f: f.p):
+        if fn.crate != 'bladeink' or '::tests::' in fn.p:
+            continue
+        n += 1
+        for bb, t in fn.calls():
+            cs = callee_short(t)
+            d = t['f'].get('def') or ''
+            if cs in SHARED or 'thread::local::LocalKey' in d or d.startswith('std::sync::once_lock') \
+                    or d.startswith('std::sync::lazy_lock'):
+                bad.append((fn, bb, cs))
+        # a `static` with interior mutability is reached through a constant that names the item
+        for bb, si, st in fn.stmts():
+            if st['k'] == 'assign' and st['rv']['k'] in ('use', 'ref', 'cast'):
+                o = st['rv'].get('op') if isinstance(st['rv'].get('op'), dict) else None
+                if o and o.get('k') == 'const' and o.get('static') and any(
+                        x in (o.get('ty') or '') for x in ('Mutex', 'RwLock', 'RefCell', 'Cell<', 'Atomic')):
+                    bad.append((fn, bb, 'static ' + str(o.get('static'))))
+    chk.floor(RS, 'runtime functions examined', n, 600)
+    if not bad:
+        chk.ok(RS, chk.key(RS, 'no-global-cells'), 'no runtime function touches a thread-local / static / lazy global cell')
+    for fn, bb, cs in bad:
+        root = prog.root_fn(fn).short
+        chk.decide(RS, chk.key(RS, root, cs), root in ALLOWED, 'table: ' + ALLOWED.get(root, ''),
+                   '%s keeps data in a cell that lives outside every Story (%s): what it stores is not released when the '
+                   'story is dropped or reset, and it grows with every story played on the thread' % (root, cs), fn.loc(bb))
 
 
 def places_of_stmt(s):
